@@ -830,7 +830,8 @@ def run(repo, rep):
         'specificity comparison pick is NOT decided.')
     G = resmodel.guarded
     n1 = G(repo, rep, 'R05b', check_error_kinds, repo, rep)
-    n2 = check_type_checks(repo, rep)
+    n2 = resmodel.guarded_specs(repo, rep, 'R05c', check_type_checks, repo,
+                                rep)
     n3 = G(repo, rep, 'R05d', check_first_layer_wins, repo, rep)
     G(repo, rep, 'R05f', check_lazy_across_layers, repo, rep)
     check_keywords_paired_by_name(repo, rep)
@@ -843,5 +844,18 @@ def run(repo, rep):
              'keyword names candidates are filtered by are per context')
     c12.check_clone_copies_parameters(repo, rep)
     c17.check_collect(repo, rep, repo.module('yaql.language.contexts'))
+    rep.rule('R05h', 'RESOLUTION-SITUATIONS: choose_overload / call / '
+             'get_delegate / map_args evaluated abstractly on a finite family '
+             'of call situations give the outcome and the call discipline '
+             'the documented rules prescribe')
+    resmodel.report_situations(repo, rep, 'R05h', (
+        'outcome', 'error-flavour', 'unknown-error', 'kind-predicate',
+        'first-layer-wins', 'no-evaluation-when-unmatched',
+        'every-value-checked', 'failed-check-rejects', 'rejects-bad-calls',
+        'payload-gets-converted-slots',
+        'conversion-error-is-argument-error', 'map-accepts-iff-wellformed',
+        'map-checks-every-supplied-value',
+        'map-pairs-values-with-parameters'),
+        'the resolution procedure departs from the documented rules')
     rep.count(resolution_raise_sites=n1, type_check_obligations=n2,
               layer_loops=n3)
